@@ -10,7 +10,8 @@ CONSTANTS Proc <- MCProc
           TSet = {2, 3}
           LaneSet = {1}
           MaxClock = 4
+          TagSet = {}
           GetKinds = {"Get", "GetTimeout"}
-INVARIANTS TypeOK Fifo Conservation RefusalInert PerProducerOrder WaitingImpliesEmpty
+INVARIANTS SwallowOnlyNil TypeOK Fifo Conservation RefusalInert PerProducerOrder WaitingImpliesEmpty
 PROPERTIES AllStepProps
 CHECK_DEADLOCK FALSE
